@@ -171,10 +171,6 @@ theorem history_invariants_consistent (cfg : Config) (hnew : cfg.matches .new = 
     rw [runHistory_cons]
     exact ⟨P2, F2, hI2, hJ2⟩
 
-/-- the head block the forkable remembers is a block of the universe, with its number -/
-def HeadU (U : Id → Option Blk) (s : FState) : Prop :=
-  ∀ l, s.lastSent = some l → ∃ b, U l.id = some b ∧ b.num = l.num
-
 theorem headU_step (cfg : Config) (hnew : cfg.matches .new = true) (hundo : cfg.matches .undo = true)
     (hirr : cfg.matches .irreversible = true) (U : Id → Option Blk) (hU : UOK U) (F : List Id)
     (s : FState) (P : List Id) (b : Blk) (hI : Inv s P) (hJ : Inv2 U F s.db) (hbU : U b.id = some b)
@@ -292,7 +288,7 @@ theorem history_discipline_discovery (cfg : Config) (hhold : cfg.hold = true) (h
       refine ⟨[], b, r, P', rfl, rfl, hd, hI, by rw [runHistory_cons]; rfl, P3, ?_, ?_⟩
       · rw [runHistory_cons]; exact hrun
       · rw [runHistory_cons]; exact hI3
-    rcases hd with ⟨hP', hev⟩ | ⟨_, _, hI, hJ⟩ | ⟨Lb, news, _, _, _, hI, hJ⟩
+    rcases hd with ⟨hP', hev⟩ | ⟨_, _, hI, hJ, _⟩ | ⟨Lb, news, _, _, _, hI, hJ, _⟩
     · -- still no LIB: continue with the rest of the history
       rcases ih _ hP' (fun x hx => hin x (by simp [hx])) hL.2 with ⟨he, hPf⟩ | ⟨h1, b', h2, P', heq, he1, hds, hI, hevs, P'', hrun, hIf⟩
       · left
@@ -308,6 +304,32 @@ theorem history_discipline_discovery (cfg : Config) (hhold : cfg.hold = true) (h
         · rw [runHistory_cons]; exact hIf
     · exact Or.inr (hfound [] [b.id] hI hJ)
     · exact Or.inr (hfound _ [Lb.id] hI hJ)
+
+/-- the three invariants along a whole history of a hold-until-LIB forkable: either no LIB was found (nothing stored
+    as sent, nothing delivered), or the final state satisfies `Inv`, `Inv2` and `HeadU` -/
+theorem history_all_invariants_discovery (cfg : Config) (hhold : cfg.hold = true) (hnew : cfg.matches .new = true)
+    (hundo : cfg.matches .undo = true) (hirr : cfg.matches .irreversible = true)
+    (U : Id → Option Blk) (hU : UOK U) (h : List Blk) (s : FState) (hP : PreInv U s)
+    (hin : ∀ b ∈ h, U b.id = some b) (hL : LibHistOK cfg s h) :
+    PreInv U (runHistory cfg s h).1 ∨
+    ∃ P F, Inv (runHistory cfg s h).1 P ∧ Inv2 U F (runHistory cfg s h).1.db ∧ HeadU U (runHistory cfg s h).1 := by
+  induction h generalizing s with
+  | nil => exact Or.inl hP
+  | cons b r ih =>
+    have hd := discovery_step cfg hhold hnew hundo hirr U hU s b hP (hin b (by simp)) hL.1
+    rw [runHistory_cons]
+    have hafter : ∀ (P : List Id) (F : List Id), Inv (processBlock cfg s b none).1 P →
+        Inv2 U F (processBlock cfg s b none).1.db → HeadU U (processBlock cfg s b none).1 →
+        ∃ P' F', Inv (runHistory cfg (processBlock cfg s b none).1 r).1 P' ∧
+          Inv2 U F' (runHistory cfg (processBlock cfg s b none).1 r).1.db ∧
+          HeadU U (runHistory cfg (processBlock cfg s b none).1 r).1 := by
+      intro P F hI hJ hH
+      exact history_all_invariants_consistent cfg hnew hundo hirr U hU r F _ P hI hJ hH
+        (fun x hx => hin x (by simp [hx])) hL.2 (Or.inl (by rw [processBlock_includeInit]; exact hP.noInit))
+    rcases hd with ⟨hP', _⟩ | ⟨_, _, hI, hJ, hH⟩ | ⟨Lb, news, _, _, _, hI, hJ, hH⟩
+    · exact ih _ hP' (fun x hx => hin x (by simp [hx])) hL.2
+    · exact Or.inr (hafter [] [b.id] hI hJ hH)
+    · exact Or.inr (hafter _ [Lb.id] hI hJ hH)
 
 /-! ### the inclusive starting block (`WithInclusiveLIB`) -/
 
